@@ -60,6 +60,10 @@ func RunC03(r *sim.Run) {
 	t := r.T
 	faults := !strings.Contains(r.Profile, "nofault")
 	w := NewWorld(r, defaultOpts())
+	if strings.Contains(r.Profile, "preempt") {
+		w.EnablePreemption(uint64(t.Draw(1 << 30)))
+		defer func() { r.ProbeN("preemptions_inside_gateway_code", w.Sc.Preempts) }()
+	}
 	defer w.Stop()
 	k := t.Range(1, 4)
 	cl := w.AddClusterStub("alpha", k, 0)
